@@ -1030,6 +1030,10 @@ def mk_server_cfg(args: ArgsType) -> configparser.SectionProxy:
             value = args[opt]
             if test_cfg_val(opt, value):
                 cfg[opt] = arg2config(opt, opt_type, value)
+            else:
+                # Drop a previously stored value that the value now in effect
+                # (a default) no longer needs; otherwise it would come back
+                USERCFG.remove_option(server, opt)
 
     return cfg
 
